@@ -128,7 +128,9 @@ def main() -> None:
         },
         "engines": [{"name": "tpsa", "path": "/verif/tpsa", "serves_properties": [c["property_id"] for c in checks],
                      "kind_free_text": "repository-specific static analyser (stdlib ast): program model, call resolution, step-level CFG with exception and cancellation edges, "
-                                       "effects, typestate abstract interpretation, constant propagation; never imports or runs the analysed package"}],
+                                       "effects, typestate abstract interpretation, constant propagation; source normalisation (single-use temporaries folded back), helpers outside the frozen "
+                                       "function table spliced into their callers (with branch threading / return-value specialisation), short display loops unrolled; "
+                                       "never imports or runs the analysed package"}],
         "checks": checks,
         "notes": "Exit codes: 0 all obligations discharged (KNOWN-FINDING lines printed for listed findings); 1 unlisted violation (VIOLATION line); 2 analysis error/inconclusive. "
                  "Genuine defects repaired in /repo by 'fix:' commits 5efe713 (F2 flush), 73c6040 (F3 ignore_lock), 9f80802 (F4 gather_and_close), 2f24236 (F7 setter reply), "
